@@ -8,6 +8,7 @@ and the debug VTK reads back to the same points and cells.
 import CBV.Lemmas.C06Geo
 import CBV.Lemmas.C06Num
 import CBV.Lemmas.C06Fmt
+import CBV.Lemmas.C06Repr
 import Mathlib.Data.String.Basic
 import CBV.Gen.TC06
 
@@ -271,6 +272,13 @@ theorem T_C06_merged (decl : Decl) :
     (assembleDecl decl).merged = decl.mergedBefore ++ decl.mergedAfter ∧
     (assembleDecl decl).settings = decl.settings := ⟨rfl, rfl, rfl⟩
 
+/-- **T_C06_edge_order / T_C06_vtk_header.** (`decide`, probes of the current source) `EdgeList.add_from_operation` walks
+    the beams in the order and direction the model's `addEdges` assumes; `write_vtk` prints the header words the model's
+    `renderVtk` is given. -/
+theorem T_C06_edge_order : CBV.Gen.c06EdgeOrder = edgeOrder := by decide
+
+theorem T_C06_vtk_header : CBV.Gen.c06VtkHeader = vtkHeader := by decide
+
 /-! ### printed numbers -/
 
 /-- **T_C06_round8.** The integer whose digits `fmt8` prints is a nearest integer to `|q|·10⁸`: the
@@ -360,6 +368,38 @@ theorem T_C06_payload (p : NumV3) (ps : List NumV3) :
   intro s hs
   simp only [vectorTokens, vectorFormat, List.map_cons, List.map_nil, List.mem_cons, List.not_mem_nil, or_false] at hs
   rcases hs with rfl | rfl | rfl <;> exact T_C06_fmt_wellformed 8 (by decide) _ _
+
+/-! ### `str(float)`: grading values and VTK coordinates -/
+
+/-- **T_C06_repr_value.** A token accepted by the validator `reprOk` for the double `x ≠ 0` denotes a rational within
+    half an ulp of `x` (so it reads back to `x` and to no other double's interior). The model prints every grading
+    value and every VTK coordinate with `pyRepr` and checks `reprOk` (and `reprShortest`) on its own output at run time
+    (flag `num=` of `c06.render` / `c06.vtk`); the file must carry the same tokens. -/
+theorem T_C06_repr_value (neg : Bool) (x : Rat) (hx : x ≠ 0) (cs : List Char) (h : reprOk neg x cs = true) :
+    ∃ q, floatValue cs = some q ∧ q - x ≤ halfUlp x ∧ x - q ≤ halfUlp x := reprOk_sound neg x hx cs h
+
+/-- **T_C06_repr_relative.** For a dyadic `x ≠ 0` (every double is one) half an ulp is at most `|x|·2⁻⁵³`: an accepted
+    token is accurate to a relative `2⁻⁵³`. -/
+theorem T_C06_repr_relative (neg : Bool) (x : Rat) (hx : x ≠ 0) (hd : x.den = 2 ^ Nat.log2 x.den) (cs : List Char)
+    (h : reprOk neg x cs = true) :
+    ∃ q, floatValue cs = some q ∧ (q - x) * ((2 ^ 53 : Nat) : Rat) ≤ absR x ∧ (x - q) * ((2 ^ 53 : Nat) : Rat) ≤ absR x := by
+  obtain ⟨q, hq, h1, h2⟩ := reprOk_sound neg x hx cs h
+  have hu := halfUlp_le x hx hd
+  have hp : (0 : Rat) < ((2 ^ 53 : Nat) : Rat) := by positivity
+  exact ⟨q, hq, by nlinarith, by nlinarith⟩
+
+/-- the double nearest to 0.1 is `3602879701896397 / 2^55`: `0.1` is accepted, the 17-digit decimal of the next double
+    is not, a token of another sign is not -/
+def tenth : Rat := 3602879701896397 / 36028797018963968
+
+example : tenth ≠ 0 ∧ tenth.den = 2 ^ Nat.log2 tenth.den ∧ reprOk false tenth "0.1".toList = true ∧
+    reprOk false tenth "0.10000000000000002".toList = false ∧ reprOk false tenth "-0.1".toList = false ∧
+    reprOk false tenth "1e-01".toList = true := by decide +kernel
+
+/-- what the generator prints (compared with the implementation on every case): shortest digits and Python's notation -/
+example : pyRepr false tenth = "0.1" ∧ pyRepr false 27 = "27.0" ∧ pyRepr false (1 / 100000) = "1e-05" ∧
+    pyRepr false 10000000000000000 = "1e+16" ∧ pyRepr true (-(3 / 2)) = "-1.5" ∧
+    pyRepr false (5224175567749775 / 4503599627370496) = "1.16" ∧ floatTextOk false tenth = true := by decide +kernel
 
 /-! ### the debug VTK -/
 
